@@ -45,6 +45,20 @@ Theorem C01_solvency_partial : forall txs s, good_run s txs -> solvent s -> solv
 Proof. exact run_txs_solvent. Qed.
 Print Assumptions C01_solvency_partial.
 
+(* the same over histories with a premise on the first state only: a pool store in key order with non-negative balances
+   and custody is kept in that shape by every delivered transaction (Proofs/ClpGood.v), so the side condition of
+   C01_history_partial holds along any run *)
+From Sif Require Proofs.ClpGood.
+Module CG := Sif.Proofs.ClpGood.
+Theorem C01_history : forall txs s, CG.GInv s -> CG.signers_ok txs ->
+  forall d, gap s d <= gap (run_txs s txs) d /\
+            (forallb (fun t => negb (is_decommission (snd t))) txs = true -> gap (run_txs s txs) d = gap s d).
+Proof. exact CG.run_txs_gap_full. Qed.
+Print Assumptions C01_history.
+Theorem C01_solvency : forall txs s, CG.GInv s -> CG.signers_ok txs -> solvent s -> solvent (run_txs s txs).
+Proof. exact CG.run_txs_solvent_full. Qed.
+Print Assumptions C01_solvency.
+
 (* non-vacuity: a concrete state with a pool; a swap and an add execute and keep the gap at 0 *)
 Definition ex_params := mkCP 0 3000000000000000 [] 0 0 [(0, 7); (1, 7)] [10] 0 false.
 Definition ex_state : clp_state :=
